@@ -2,7 +2,7 @@
 # usage: tools/tryseed.sh <seed-dir-with-patch.diff> <Cxx>...   (scratch copy of /repo, never /repo itself)
 set -u
 cd "$(dirname "$0")/.."
-S=$1; shift
+S=$(realpath "$1"); shift
 d=/root/scratch-main/tryseed.$$
 rm -rf $d; mkdir -p $d
 rsync -a --exclude .git /repo/ $d/repo/
